@@ -755,6 +755,7 @@ impl<'s> Tokenizer<'s> {
                 let end = ptr - self.block_start().len();
                 let mut result = &self.rest()[..end];
                 self.advance(end);
+                let body_end = self.current_offset;
                 let span = self.span(old_loc);
                 self.advance(self.block_start().len() + endraw);
                 match ws_start {
@@ -772,7 +773,16 @@ impl<'s> Tokenizer<'s> {
                     _ => {}
                 }
                 result = match ws {
-                    Whitespace::Default if self.ws_config.lstrip_blocks => lstrip_block(result),
+                    // like for every other block tag, only if the tag starts its line
+                    Whitespace::Default
+                        if should_lstrip_block(
+                            self.ws_config.lstrip_blocks,
+                            StartMarker::Block,
+                            &self.source[..body_end],
+                        ) =>
+                    {
+                        lstrip_block(result)
+                    }
                     Whitespace::Remove => result.trim_end(),
                     _ => result,
                 };
